@@ -23,7 +23,7 @@ ASSUME TLCSet(1, {})
 VARIABLES h, done, st
 lvars == <<h, done, st>>
 
-FromJ(j) == [j EXCEPT !.opts = LoRange(j.opts), !.acc = LoRange(j.acc)]
+FromJ(j) == [j EXCEPT !.opts = LoRange(j.opts), !.acc = LoRange(j.acc), !.lvl = LoRange(j.lvl)]
 
 LInit == /\ h \in 1..Len(H)
          /\ done = [g \in 1..Len(H[h].hist) |-> 0]
